@@ -215,6 +215,65 @@ theorem C19_walk_sound_vpk (c : WalkCfg) (fold : Char → List Char) (F : FileSe
   rw [← hk, hg]
   rfl
 
+/-- Files of a directory backend: relative names without `.`/`..` and without backslashes. -/
+def RawNames (F : FileSet) : Prop :=
+  ∀ e ∈ F, isAbs e.name = false ∧ '\\' ∉ e.name ∧ ∀ c ∈ comps e.name, c ≠ dot ∧ c ≠ dotdot
+
+/-- **The directory filesystem agrees for exact-case names.** Over a file set whose names are
+pairwise distinct as paths, a query that spells a stored name exactly (with either slash) finds
+that file in the directory backend (root in normal form, constraint on) … -/
+theorem C19_agree_raw (E : Env) (hk : E.rawCfg.contain = .sepTerminated)
+    (hfs : E.rawCfg.foldSlash = true) (F : FileSet) (root : Str) (hroot : NormalAbs root)
+    (hF : RawNames F) (hdist : (F.map fun e => comps e.name).Nodup)
+    (e : FEnt) (he : e ∈ F) (q : Str) (hq : replaceBS q = e.name) :
+    lookup E ⟨.raw, F, root⟩ q = .ok (e.name, e.id) := by
+  obtain ⟨h1, h2, h3⟩ := hF e he
+  have hbs : replaceBS e.name = e.name := replaceBS_of_not_mem _ h2
+  have acc := fun (p : Str) (hp : replaceBS p = e.name) =>
+    C18.accepts E.rawCfg hk E.cwd (rawFS ⟨.raw, F, root⟩) hroot p
+      (by simp only [hfs, if_true, hp]; exact h1) (by simp only [hfs, if_true, hp]; exact h3)
+  obtain ⟨q1, hr1, hc1⟩ := acc q hq
+  obtain ⟨q2, hr2, hc2⟩ := acc e.name hbs
+  simp only [hfs, if_true, hq, hbs] at hc1 hc2
+  have hf1 := fileAt_rawTree F root q1 e he hdist hc1
+  have hf2 := fileAt_rawTree F root q2 e he hdist hc2
+  unfold lookup
+  simp only
+  have hg : C18.getFile E.rawCfg E.cwd (rawFS ⟨.raw, F, root⟩) (rawTree ⟨.raw, F, root⟩) q = .ok e.name := by
+    unfold C18.getFile
+    rw [hr1]
+    simp only [bind, Except.bind, hf1, Option.isSome_some, if_true, pure, Except.pure, hq]
+  have ho : C18.openName E.rawCfg E.cwd (rawFS ⟨.raw, F, root⟩) (rawTree ⟨.raw, F, root⟩) e.name
+      = .ok ⟨comps root ++ comps e.name, e.id⟩ := by
+    unfold C18.openName
+    rw [hr2]
+    simp only [bind, Except.bind, hf2, pure, Except.pure]
+  rw [hg]
+  simp only [bind, Except.bind, ho, pure, Except.pure]
+
+/-- … and the archive-like backends find the same file when, in addition, the stored names are
+pairwise distinct up to case: all four return the bytes of `e`. -/
+theorem C19_agree_all {fold : Char → List Char} (hF : FoldOK fold) (F : FileSet) (hN : NormNames F)
+    (hdist : (F.map fun e => foldStr fold e.name).Nodup) (e : FEnt) (he : e ∈ F) (q : Str)
+    (hq : replaceBS q = e.name) (hqn : normpath q = q) :
+    (lookupV fold F q).map (·.2) = some e ∧ (lookupZ fold F q).map (·.2) = some e ∧
+    (lookupP fold F q).map (·.2) = some e := by
+  obtain ⟨h1, h2⟩ := C19_agree hF F hN q hqn
+  have hnd : ((F.map fun e => (foldStr fold e.name, e)).map (·.1)).Nodup := by
+    rw [List.map_map]; exact hdist
+  have hz : (lookupZ fold F q).map (·.2) = some e := by
+    obtain ⟨_, hZ, _⟩ := C19_same_dict hF F hN
+    have hd : dictOf (F.map fun e => (foldStr fold e.name, e)) = F.map fun e => (foldStr fold e.name, e) :=
+      dictOf_of_nodup _ hnd
+    unfold lookupZ
+    rw [hZ, hd]
+    have hkey : keyZ fold q = foldStr fold e.name := by simp [keyZ, hq]
+    have hmem : (foldStr fold e.name, e) ∈ F.map fun e => (foldStr fold e.name, e) :=
+      List.mem_map.mpr ⟨e, he, rfl⟩
+    rw [hkey, dictGet_of_mem _ hnd _ _ hmem]
+    rfl
+  exact ⟨h1.trans hz, hz, h2.trans hz⟩
+
 /-- The three defects of the original `walk_folder` methods, as model facts: the root folder of
 an in-memory filesystem lists nothing; `"ma"` lists `mat/a` in all three; `"Mat"` misses `Mat/b`
 (in-memory) and `"MAT"` misses `mat/a` (VPK). All are repaired in the fixed configuration. -/
